@@ -1,6 +1,7 @@
 import HappyModel.Proto
 import HappyModel.C09.Bulkhead
 import HappyModel.C09.Preempt
+import HappyModel.C09.PreemptCb
 import HappyModel.C09.ThreadPool
 /-! Line-protocol driver functions for the C09 extension (Bulkhead, ThreadPool, PreemptibleResource);
 the other side is `hv/props/c09_extra.py`.  `HappyModel.C09.Driver.handle` dispatches to them. -/
@@ -165,6 +166,76 @@ def judgePreempt (cap : Int) (body : List String) : List String :=
 
 end PreemptDrv
 
+
+/-! ### PreemptibleResource with re-entrant `on_preempt` callbacks -/
+section PreemptCbDrv
+open HappyModel.C09.Preempt HappyModel.C09.PreemptCb
+
+/-- `r<id>` | `q` | `a<amt>:<prio>:<pre>:<cb>` -/
+def actOf (t : String) : Option Act :=
+  if t == "q" then some .query
+  else if t.startsWith "r" then some (.rel (natD ((t.drop 1).toString)))
+  else if t.startsWith "a" then
+    match ((t.drop 1).toString).splitOn ":" with
+    | [amt, prio, pre, cb] => some (.acq (intD amt) (intD prio) (pre == "1") (natD cb))
+    | _ => none
+  else none
+
+def showEv (cbobs : Bool) (e : Ev) : String :=
+  let pfx := match e.ctx with
+    | some v => s!"cb {v} "
+    | none => ""
+  let head := match e.tag, e.o.k with
+    | .query, _ => "q obs"
+    | .ev _ first amt prio, _ => s!"ev {if first then 1 else 0} {amt} {prio} fired"
+    | .call, .acq id amt prio pre => s!"acq {id} {amt} {prio} {if pre then 1 else 0} {presName e.o.res}"
+    | .call, .rel id => s!"rel {id} {presName e.o.res}"
+  let cnt := if e.ctx.isNone || cbobs then
+      s!" pset={showIds e.o.pset} av={e.o.avail} s={e.o.sAcq},{e.o.sRel},{e.o.sPre},{e.o.sCon}"
+    else ""
+  s!"{pfx}{head} pre={showIds e.o.evicted} woke={showIds e.o.woke}{cnt}"
+
+def cbFuel : Nat := 20000
+
+def runPreemptCb (cap : Int) (cbobs : Bool) (body : List String) : List String :=
+  let progLines := body.filter (fun l => (toks l).head? == some "prog")
+  let progs : Progs := progLines.map (fun l => ((toks l).drop 1).filterMap actOf)
+  let ops : List (Option Act) := (body.filter (fun l => (toks l).head? != some "prog")).map fun l =>
+    match toks l with
+    | ["acq", amt, prio, pre, cb] => some (.acq (intD amt) (intD prio) (pre == "1") (natD cb))
+    | ["rel", id] => some (.rel (natD id))
+    | _ => none
+  if ops.any Option.isNone then ["bad-line"]
+  else ((drain progs cbFuel (M.init cap (ops.filterMap id))).2).map (showEv cbobs)
+
+def parseCObs (ts : List String) : Option CObs :=
+  let ctx : Option Nat := match ts with
+    | "cb" :: v :: _ => some (natD v)
+    | _ => none
+  let ts' := if ctx.isSome then ts.drop 2 else ts
+  let cnt := (findKv "av" ts').isSome
+  let lst := fun (k : String) => ((findKv k ts').map parseIds).getD []
+  let stats := ((findKv "s" ts').map (fun x => (x.splitOn ",").map natD)).getD []
+  let bare : Preempt.Obs :=
+    { k := .rel 0, res := .noop, evicted := lst "pre", woke := lst "woke", pset := lst "pset",
+      avail := ((findKv "av" ts').map intD).getD 0,
+      sAcq := stats.getD 0 0, sRel := stats.getD 1 0, sPre := stats.getD 2 0, sCon := stats.getD 3 0 }
+  if ctx.isNone && !cnt then none
+  else match ts' with
+    | "q" :: _ => some { tag := .query, cnt := cnt, o := bare }
+    | "ev" :: first :: amt :: prio :: _ =>
+      ctx.map fun v => { tag := .ev v (first == "1") (intD amt) (intD prio), cnt := cnt, o := bare }
+    | _ => (parsePObs ts').map fun o => { tag := .call, cnt := cnt, o := o }
+
+def judgePreemptCb (cap : Int) (body : List String) : List String :=
+  let parsed := body.map (fun l => parseCObs (toks l))
+  if parsed.any Option.isNone then ["viol preempt/malformed-judge-input"]
+  else match PreemptCb.judge cap {} (parsed.filterMap id) with
+    | none => ["ok"]
+    | some sig => [s!"viol {sig}"]
+
+end PreemptCbDrv
+
 /-! ### ThreadPool -/
 section TPoolDrv
 open HappyModel.C09.TPool
@@ -266,6 +337,8 @@ def handle? (hdr : List String) (body : List String) : Option (List String) :=
   | ["judge-tpool", n, qc] => some (judgeTPool (natD n) (qcapOf qc) body)
   | ["preempt", cap, fix] => some (runPreempt (intD cap) (fix == "1") body)
   | ["judge-preempt", cap] => some (judgePreempt (intD cap) body)
+  | ["preemptcb", cap, cbobs] => some (runPreemptCb (intD cap) (cbobs == "1") body)
+  | ["judge-preemptcb", cap] => some (judgePreemptCb (intD cap) body)
   | _ => none
 
 end HappyModel.C09.Extra
